@@ -11,7 +11,9 @@ LEVEL = 'proof'
 RULE = ('parser/value: generator A renders random literal trees (depth <= 5: ints in all bases / underscores / huge, '
         'floats incl. exponents, 1., .5, overflow to inf, complex, str/bytes with every prefix, both quotes, triple '
         'quotes, escapes, 1-4 adjacent pieces, booleans, None, lists, tuples, one-tuples, parenthesised values, '
-        'dicts, trailing commas) to text in random layouts (blanks, line breaks and comments inside brackets, '
+        'dicts -- also with keys that are equal in Python under different spellings (1 / True / 1.0, 0 / False / -0.0 / 0j, equal '
+        'strings and tuples: one entry), and, now and then, keys that are gin references / macros (repeated) or cannot be hashed '
+        '(TypeError) --, trailing commas) to text in random layouts (blanks, line breaks and comments inside brackets, '
         'backslash continuations); generator B applies single-character edits to A texts and adds a fixed list of '
         'near misses. Each text is parsed as the statement "x.p = <text>". non-trivial = nesting depth >= 2 with '
         'trivia inside a bracket, or >= 2 adjacent string pieces, or a near miss.')
@@ -23,8 +25,7 @@ TRUSTED_BASE = [
     'point where it raised) and ast.literal_eval on one atom text (an oracle table computed by the harness with the real '
     'ast.literal_eval is part of the model input; the model reports OracleMiss if it needs a text the table lacks)',
 ]
-ASSUMPTIONS = ['dict keys of different numeric types that compare equal (1 / True / 1.0) are not generated',
-               'texts containing NUL or CR are not sent to the model']
+ASSUMPTIONS = ['texts containing NUL or CR are not sent to the model']
 
 FIXED_NEAR_MISSES = [
     '1 + 2', '1+2j', '+1', '--1', '- -1', 'abc', 'a.b', '[x for x in y]', '{1, 2}', '{1}', '[1, 2', '1, 2', '(1, 2',
@@ -35,7 +36,15 @@ FIXED_NEAR_MISSES = [
     "'a''b'", "'a'\"b\"", "r'\\'", "'\\", "u'a' 'b'", "rb'a' b'b'", '0o17', '0b101', '1e5', '1E-5', '1.', '.5', '1e999',
     '-1e999', '1j', '-1j', '1_000', '0xFF', '10**2', 'True', 'False', 'None', 'true', 'nan', 'inf', '((1))', '((1),)',
     '(((1,),),)', '{1: {2: {3: [4, (5,)]}}}', "{'a': 1, 'a': 2}", "{'a': 1, 'b': 2, 'a': 3}", '[1, 2, 3,]', '(1, 2,)',
-    "{'a': 1,}", '[[], (), {}]', '9' * 60, '-' + '9' * 60, '0' * 3, '007', '1 \\\n', '[1, \\\n 2]',
+    "{'a': 1,}", '[[], (), {}]',
+    # dict(values): keys that are equal in Python are ONE entry (the earlier key and place, the later value); a key that
+    # cannot be hashed raises TypeError once the closing bracket has been passed
+    "{1: 'a', True: 'b'}", "{True: 'a', 1: 'b', 1.0: 'c'}", "{0: 1, -0.0: 2, False: 3, 0j: 4, '': 5}", "{(1, 'a'): 1, (True, 'a'): 2, (1.0, 'a',): 3}",
+    "{'k' '1': 1, 'k1': 2, u'k1': 3, b'k1': 4}", "{1e999: 1, 1e400: 2, -1e999: 3}", '{10000000000000000000000: 1, 1e22: 2, 10000000000000000000001: 3}',
+    "{0.1: 1, 1e-1: 2, 0.10000000000000002: 3}", '{0x10: 1, 16.0: 2, 0o20: 3, 1_6: 4}', '{None: 1, None: 2}', "{1: {2: 'a', 2.0: 'b'}}",
+    '{1j: 1, 1.0j: 2, -1j: 3, 0j: 4, 0: 5}', '{2.5: 1, 5e-1: 2, 0.5: 3}', '{[1]: 2}', '{1: 2, {}: 3}', '{(1, [2]): 3}', '[{[1]: 2}]', '{[1]: 2} x', '{[1]: [}',
+    '{(): 1, (): 2, ((),): 3}', '{@f: 1, @f: 2}', '{@f: 1, @f(): 2}', '{%m: 1, %m: 2, %n: 3}', '{@s/f: 1, @f: 2, @s/f: 3}', '{@f: 1, [@f]: 2}',
+    '9' * 60, '-' + '9' * 60, '0' * 3, '007', '1 \\\n', '[1, \\\n 2]',
     # inside a string literal these are ordinary characters for the tokenizer (str.splitlines would cut there)
     "'a\x0bb'", "'a\x0cb'", '"""a\x0cb"""', "'x\u2028y'", "r'a\x1cb'", "b'a\x0cb'", "['a\x85b', 1]", "'a\x1d' 'b\x1e'", "'\u2029'",
 ]
@@ -117,18 +126,27 @@ def gen_atom(rng):
   return ('STR', [gen_strpiece(rng, kind) for _ in range(n)])
 
 
-def gen_tree(rng, depth):
+def gen_tree(rng, depth, special=False):
+  """special: dict keys may be gin references / macros or unhashable (no Python literal then)"""
   r = rng.random()
   if depth <= 0 or r < 0.4:
     return ('atom', gen_atom(rng))
   if r < 0.6:
-    return ('list', [gen_tree(rng, depth - 1) for _ in range(rng.choice([0, 1, 2, 3]))])
+    return ('list', [gen_tree(rng, depth - 1, special) for _ in range(rng.choice([0, 1, 2, 3]))])
   if r < 0.78:
-    return ('tuple', [gen_tree(rng, depth - 1) for _ in range(rng.choice([0, 1, 1, 2, 3]))])
+    return ('tuple', [gen_tree(rng, depth - 1, special) for _ in range(rng.choice([0, 1, 1, 2, 3]))])
   if r < 0.86:
-    return ('paren', gen_tree(rng, depth - 1))
-  keys = rng.sample(["'k1'", '"k2"', '2', '3', "b'k'", '(1, 2)', 'None', "'k1' 'x'"], rng.choice([0, 1, 2, 3]))
-  items = [(('atom', k), gen_tree(rng, depth - 1)) for k in keys]
+    return ('paren', gen_tree(rng, depth - 1, special))
+  # keys: also different spellings of Python-equal keys (1 / True / 1.0 / 1e0, 0 / False / -0.0 / 0j, equal strings, equal
+  # tuples): dict(values) makes them ONE entry; now and then gin's own syntax, and a key that cannot be hashed (TypeError)
+  pool = ["'k1'", '"k2"', '2', '3', "b'k'", '(1, 2)', 'None', "'k1' 'x'", '1', 'True', '1.0', '1e0', '0', 'False', '-0.0', '0j', '2.0',
+          "'k' '1'", "u'k1'", "'k1x'", '(True, 2.0)', '(1, 2,)', '0x2', '-0', '(1)', '()', '1e999']
+  if special and rng.random() < 0.6:
+    pool = pool[:12] + ['@f', '@f()', '%m', '@s/f', '%m', '@f', '%n']
+  elif special:
+    pool = pool[:12] + ['[1]', '{}', '(1, [2])', '[]']
+  keys = [rng.choice(pool) for _ in range(rng.choice([0, 1, 2, 3, 4]))]
+  items = [(('atom', k), gen_tree(rng, depth - 1, special)) for k in keys]
   if items and rng.random() < 0.2:
     items.append((items[0][0], gen_tree(rng, 0)))       # duplicate key: the later value wins
   return ('dict', items)
@@ -209,6 +227,12 @@ def has_gin_syntax(c):
   return has_tag(c, ('Ref', 'Macro'))
 
 
+def text_has_gin_syntax(text):
+  """a '@' or '%' operator token in the text: gin's own value syntax, even where the reference does not show in the value
+  any more (an item of a dict literal that a later equal key replaced)"""
+  return any(t[0] == 'OP' and t[1] in ('@', '%') for t in P.tokens_of(text))
+
+
 class ValueEngine(Engine):
   name = 'parser-value'
   imports = 'Model.Parser'
@@ -221,10 +245,11 @@ class ValueEngine(Engine):
     return [{'kind': 'fixed', 'text': t} for t in FIXED_NEAR_MISSES]
 
   def gen(self, rng, tier):
-    t = gen_tree(rng, rng.choice([0, 1, 2, 3, 4, 5]))
+    special = rng.random() < 0.08
+    t = gen_tree(rng, rng.choice([1, 2, 3]) if special else rng.choice([0, 1, 2, 3, 4, 5]), special)
     text = render(rng, t)
     for _ in range(5):
-      if P.lit_eval(text) is not None:
+      if special or P.lit_eval(text) is not None:
         break
       t = gen_tree(rng, 2)
       text = render(rng, t)
@@ -260,7 +285,7 @@ class ValueEngine(Engine):
     fails, tags = [], [case['kind']]
     ref = P.lit_eval(text)
     accepted = len(obs) == 1 and obs[0].tag == 'Bind' and (obs[0].args[0], obs[0].args[1], obs[0].args[2]) == ('', 'x', 'p')
-    if accepted and has_gin_syntax(obs[0].args[3]):
+    if accepted and (has_gin_syntax(obs[0].args[3]) or text_has_gin_syntax(text)):
       tags.append('reference-or-macro')      # gin's own value syntax: outside the literal grammar, not judged
     elif accepted:
       v = obs[0].args[3]
@@ -354,7 +379,7 @@ class ApiEngine(ValueEngine):
       cfg.ParserDelegate = real
     fails, tags = [], [case['kind']]
     ref = P.lit_eval(text)
-    if obs.tag == 'Value' and has_gin_syntax(obs.args[0]):
+    if obs.tag == 'Value' and (has_gin_syntax(obs.args[0]) or text_has_gin_syntax(text)):
       tags.append('reference-or-macro')
     elif obs.tag == 'Value':
       tags.append('accepted')
